@@ -1,5 +1,6 @@
 import MpVerif.C04.Model
 import MpVerif.C04.Trace
+import MpVerif.C04.Arms
 /-! Line driver for C04.  One op per line; prints one canonical line per op (`bad-op` if not understood).
 
     graph <nnodes> <size_0> ... <size_{n-1}>     start a new graph (resets entries, bounds, node contents)
@@ -12,6 +13,7 @@ import MpVerif.C04.Trace
                                                  -> `ok <node>: v v v | <node>: ...` or `raise`
          node contents persist between calls exactly as in `session` (each call = `runFrom prev`)
     trace <pre|post> <kind> <node> <idx> <nloaded> <node>*   -> symbolic origin of a cell (see Trace.lean)
+    arms on | arms report       instrumentation (Arms.lean): count the model arms taken by the following `call`s
     sources <node> <idx> <nloaded> <node>*   -> `sources ok n:i ...` (m2mSourcesRev + srcsUnwritten) | `sources none` | `sources written`
     reach <kind> <unode> <uidx> <tnode> <tidx> <nloaded> <node>*
           -> `reach <reachPost (entries before the first writer of t) u t> <tracePost of t in the remaining entries>`
@@ -40,6 +42,8 @@ structure DState where
   lbs : List (Option Rat) := []
   ubs : List (Option Rat) := []
   prev : St := ⟨fun _ => 0⟩
+  arms : Counts := []
+  countArms : Bool := false
 
 def nats (l : List String) : Option (List Nat) := l.mapM String.toNat?
 def rats (l : List String) : Option (List Rat) := l.mapM parseRat
@@ -90,7 +94,7 @@ def handle (st : DState) (toks : List String) : DState × String :=
   match toks with
   | "graph" :: n :: sizes =>
     match n.toNat?, nats sizes with
-    | some n, some sz => if sz.length = n then ({ g := ⟨[], sz⟩ }, "graph") else (st, "bad-op")
+    | some n, some sz => if sz.length = n then ({ g := ⟨[], sz⟩, arms := st.arms, countArms := st.countArms }, "graph") else (st, "bad-op")
     | _, _ => (st, "bad-op")
   | ["entry", kind, sn, sb, sl, dn, db, dl] =>
     match nats [sn, sb, sl, dn, db, dl] with
@@ -132,10 +136,14 @@ def handle (st : DState) (toks : List String) : DState × String :=
         | some nout, some outs =>
           if outs.length ≠ nout then (st, "bad-op") else
           let r := runFrom st.g st.prev ⟨dir, kind, inputs⟩
+          let st := if st.countArms then { st with arms := armsOfCall st.g ⟨dir, kind, inputs⟩ st.arms } else st
           match r with
           | none => (st, "raise")            -- node contents after a raise are unspecified; next call cleans them
           | some S =>
             let clampNode : Option Nat := clamp.toNat?
+            let st := match clampNode with
+              | some n => if st.countArms then { st with arms := clampArms st.lbs st.ubs (readNode S n (st.g.size n)) st.arms } else st
+              | none => st
             let line := outs.map (fun n =>
               let v := readNode S n (st.g.size n)
               let v := if clampNode = some n then clampVec st.lbs st.ubs v else v
@@ -176,6 +184,8 @@ def handle (st : DState) (toks : List String) : DState × String :=
       let o := tracePost kind zero b t
       (st, s!"reach {if reachPost a (un, ui) t then 1 else 0} " ++ (match o with | some o => o.show | none => "none"))
     | _, _, _ => (st, "bad-op")
+  | ["arms", "on"] => ({ st with countArms := true }, "arms on")
+  | ["arms", "report"] => (st, "arms " ++ " ".intercalate (st.arms.map (fun kv => s!"{kv.1}={kv.2}")))
   | _ => (st, "bad-op")
 
 partial def loop (h out : IO.FS.Stream) (st : DState) : IO Unit := do
